@@ -77,7 +77,7 @@ PROPS = {
                 pending=['callbacks whose application RAISES inside a higher-order call (the returning case is hof_big_step; the raising case is the one-transition lemma raise_skips_*)']),
     'C10': dict(obligations=lambda: P('SqProps.C10') + P('SqProps.C10Run'),
                 slices=['scope', 'session_scope'], monitors=['c10'],
-                pending=['programs WITH mutators: a mutator reaches a scope dictionary only through a reference to it, and no value ever refers to one (heap-level separation invariant, world-relative) — for mutator-free programs assignments_in_calls_leave_covered_scopes is proved over whole runs; scope_balanced over all runs']),
+                pending=['the hypothesis of covered_scopes_survive_any_program — no value of the host world mentions the scope dictionary — is world-relative (a host that stores its names mapping inside itself is outside it); scope_balanced over all runs; for mutator-free programs assignments_in_calls_leave_covered_scopes needs no such hypothesis']),
     'C11': dict(obligations=lambda: P('SqProps.C11') + SHAPE_RESETS,
                 slices=['session'], monitors=['c11'],
                 pending=['histories that contain earlier EVALS: independent up to the D9 finding (a stored lambda charges its creator VM); proved for histories of parse / list_names calls of any outcome, and for cached parsers via C17.cache_transparent']),
@@ -86,7 +86,7 @@ PROPS = {
                 pending=['the aliasing STRUCTURE of the copy (two paths to one object stay two paths to one object: the memo is a function, copy_walk_invariant) is not stated as a theorem of its own; content (stored_copy_has_same_content: equal unfoldings at every depth) and independence (stored_copy_is_independent) are proved']),
     'C13': dict(obligations=lambda: P('SqProps.C13') + P('SqProps.C13All') + P('SqProps.C13Run') + TIE_FN,
                 slices=['builtin_args'], monitors=['c13'],
-                pending=['programs that DO contain mutators or compound assignments: which objects they may change (the receiver of the mutator and nothing else) — the mutator-free case is proved over whole runs (quiet_program_changes_no_host_object), all 35 non-mutating table entries individually']),
+                pending=['which of the mentioned objects a mutator changes (its receiver; the list c[k] for c[k] += ..) is stated per table entry (InvSep.mod_*), over whole runs as: only top scopes and objects some value mentions (step_sep, unmentioned_object_unchanged); the mutator-free case changes nothing (quiet_program_changes_no_host_object)']),
     'C14': dict(obligations=lambda: P('SqProps.C14') + T('SqTie.Consts', 'cast_dict_keys_tie'),
                 slices=['ops'], monitors=['c14'],
                 pending=['the value copies made by `c[k] = v` (deep copy before the store) composed with ops_refine_list; slices of lists; dict and list refinement are proved over all operation sequences']),
